@@ -74,70 +74,80 @@ def isHighSurr (r : Nat) : Bool := 0xD800 ≤ r && r < 0xDC00
 def isLowSurr (r : Nat) : Bool := 0xDC00 ≤ r && r < 0xE000
 def isSurrogate (r : Nat) : Bool := 0xD800 ≤ r && r < 0xE000
 
+/-- the byte a single-letter escape stands for -/
+def simpleEscape (e : UInt8) : Option UInt8 :=
+  if e = 0x22 then some 0x22
+  else if e = 0x5C then some 0x5C
+  else if e = 0x2F then some 0x2F
+  else if e = 0x62 then some 8
+  else if e = 0x66 then some 12
+  else if e = 0x6E then some 10
+  else if e = 0x72 then some 13
+  else if e = 0x74 then some 9
+  else none
+
+/-- `\uXXXX` with the surrogate handling of `unquoteBytes`; the argument is what follows `\u`.
+Returns (decoded bytes, raw bytes consumed after `\u`, rest). -/
+def readUnicode (rest2 : Bytes) : Option (Bytes × Bytes × Bytes) :=
+  match hex4 rest2 with
+  | none => none
+  | some (rr, rest3) =>
+    let pair : Option (Nat × Bytes) :=
+      if isHighSurr rr then
+        match getu4 rest3 with
+        | some (rr1, rest4) =>
+          if isLowSurr rr1 then some ((rr - 0xD800) * 1024 + (rr1 - 0xDC00) + 0x10000, rest4)
+          else none
+        | none => none
+      else none
+    match pair with
+    | some (dec, rest4) => some (encodeRune dec, rest2.take 4 ++ rest3.take 6, rest4)
+    | none => some (encodeRune (if isSurrogate rr then runeError else rr), rest2.take 4, rest3)
+
+/-- one step of the string scanner + unquote -/
+inductive StrStep where
+  | done (rest : Bytes)                 -- closing quote
+  | chunk (d raw rest : Bytes)          -- decoded bytes, raw bytes consumed, rest
+  | fail
+  deriving Repr, DecidableEq
+
+def stringStep (s : Bytes) : StrStep :=
+  match s with
+  | [] => .fail
+  | c :: rest =>
+    if c = 0x22 then .done rest
+    else if c = 0x5C then
+      match rest with
+      | [] => .fail
+      | e :: rest2 =>
+        match simpleEscape e with
+        | some out => .chunk [out] [c, e] rest2
+        | none =>
+          if e = 0x75 then
+            match readUnicode rest2 with
+            | some (d, raw, r) => .chunk d (c :: e :: raw) r
+            | none => .fail
+          else .fail
+    else if c.toNat < 0x20 then .fail
+    else if c.toNat < 0x80 then .chunk [c] [c] rest
+    else
+      let rn := decodeRune s
+      if rn.1 = runeError ∧ rn.2 = 1 then .chunk [0xEF, 0xBF, 0xBD] [c] rest
+      else .chunk (s.take rn.2) (s.take rn.2) (s.drop rn.2)
+
 /-- Reads the remainder of a string literal after the opening quote.
 Returns (decoded bytes, raw bytes consumed up to and including the closing quote, rest) or `none`
 where the scanner / unquote fails (unterminated, control character, bad escape). Invalid UTF-8
 is replaced by U+FFFD exactly as `unquoteBytes` does. -/
 def readString : Nat → Bytes → Option (Bytes × Bytes × Bytes)
   | 0, _ => none
-  | _, [] => none
-  | fuel + 1, s@(c :: rest) =>
-    if c = 0x22 then some ([], [c], rest)
-    else if c = 0x5C then
-      match rest with
-      | [] => none
-      | e :: rest2 =>
-        let simple (out : UInt8) : Option (Bytes × Bytes × Bytes) :=
-          match readString fuel rest2 with
-          | some (d, raw, r) => some (out :: d, c :: e :: raw, r)
-          | none => none
-        if e = 0x22 then simple 0x22
-        else if e = 0x5C then simple 0x5C
-        else if e = 0x2F then simple 0x2F
-        else if e = 0x62 then simple 8
-        else if e = 0x66 then simple 12
-        else if e = 0x6E then simple 10
-        else if e = 0x72 then simple 13
-        else if e = 0x74 then simple 9
-        else if e = 0x75 then
-          match hex4 rest2 with
-          | none => none
-          | some (rr, rest3) =>
-            -- surrogate handling of `unquoteBytes`
-            let pair : Option (Nat × Bytes) :=
-              if isHighSurr rr then
-                match getu4 rest3 with
-                | some (rr1, rest4) =>
-                  if isLowSurr rr1 then some ((rr - 0xD800) * 1024 + (rr1 - 0xDC00) + 0x10000, rest4)
-                  else none
-                | none => none
-              else none
-            match pair with
-            | some (dec, rest4) =>
-              match readString fuel rest4 with
-              | some (d, raw, r) =>
-                some (encodeRune dec ++ d, c :: e :: (rest2.take 4 ++ rest3.take 6 ++ raw), r)
-              | none => none
-            | none =>
-              let r1 := if isSurrogate rr then runeError else rr
-              match readString fuel rest3 with
-              | some (d, raw, r) => some (encodeRune r1 ++ d, c :: e :: (rest2.take 4 ++ raw), r)
-              | none => none
-        else none
-    else if c.toNat < 0x20 then none
-    else if c.toNat < 0x80 then
+  | fuel + 1, s =>
+    match stringStep s with
+    | .fail => none
+    | .done rest => some ([], [0x22], rest)
+    | .chunk d raw rest =>
       match readString fuel rest with
-      | some (d, raw, r) => some (c :: d, c :: raw, r)
+      | some (d', raw', r) => some (d ++ d', raw ++ raw', r)
       | none => none
-    else
-      let rn := decodeRune s
-      if rn.1 = runeError ∧ rn.2 = 1 then
-        match readString fuel rest with
-        | some (d, raw, r) => some ([0xEF, 0xBF, 0xBD] ++ d, c :: raw, r)
-        | none => none
-      else
-        match readString fuel (s.drop rn.2) with
-        | some (d, raw, r) => some (s.take rn.2 ++ d, s.take rn.2 ++ raw, r)
-        | none => none
 
 end J5V.Json
